@@ -20,7 +20,6 @@ import (
 	"runtime/debug"
 	"strings"
 	"sync"
-	"unsafe"
 )
 
 // Config controls one run.
@@ -52,7 +51,7 @@ type Task struct {
 	done   bool
 	prio   int
 	// Local is task-local storage for the harness (request attribution etc).
-	Local map[string]interface{}
+	Local PMap[string, interface{}]
 	// Parent is the task that spawned this one.
 	Parent *Task
 	// result slot for modelled rendezvous
@@ -95,21 +94,24 @@ type sched struct {
 	aborted  bool
 	res      *Result
 
-	mutexes map[*sync.Mutex]*Task
-	rws     map[*sync.RWMutex]*rwState
-	wgs     map[*sync.WaitGroup]*wgState
-	onces   map[*sync.Once]*onceState
-	conds   map[*sync.Cond]*condState
-	closed  map[uintptr]bool
+	mutexes PMap[*sync.Mutex, *Task]
+	rws     PMap[*sync.RWMutex, *rwState]
+	wgs     PMap[*sync.WaitGroup, *wgState]
+	onces   PMap[*sync.Once, *onceState]
+	conds   PMap[*sync.Cond, *condState]
+	closed  U64Map[bool]
 	keep    []interface{}
-	rvs     map[uintptr]*rendezvous
-	chans   map[uintptr]drainer
-	pools   map[*sync.Pool][]interface{}
-	serial  map[unsafe.Pointer]uint64
+	rvs     U64Map[*rendezvous]
+	chans   U64Map[drainer]
+	pools   PMap[*sync.Pool, *poolState]
+	serial  U64Map[uint64]
+	probes  PMap[string, int]
+	faults  PMap[string, int]
+	pairs   U64Map[struct{}]
 	nserial uint64
 	enabled []*Task // scratch
 
-	pctChange map[int]bool
+	pctChange U64Map[bool]
 	lastSite  string
 }
 
@@ -149,39 +151,32 @@ func Run(cfg Config, tape *Tape, root func()) *Result {
 		cfg:      cfg,
 		tape:     tape,
 		finished: make(chan struct{}),
-		res:      &Result{Probes: map[string]int{}, Faults: map[string]int{}, PairSites: map[uint64]struct{}{}},
-		mutexes:  map[*sync.Mutex]*Task{},
-		rws:      map[*sync.RWMutex]*rwState{},
-		wgs:      map[*sync.WaitGroup]*wgState{},
-		onces:    map[*sync.Once]*onceState{},
-		conds:    map[*sync.Cond]*condState{},
-		closed:   map[uintptr]bool{},
-		rvs:      map[uintptr]*rendezvous{},
-		chans:    map[uintptr]drainer{},
-		pools:    map[*sync.Pool][]interface{}{},
-		serial:   map[unsafe.Pointer]uint64{},
+		res:      &Result{},
 		fp:       14695981039346656037,
 	}
 	s.res.TraceHash = 14695981039346656037
 	if cfg.PCT > 0 {
-		s.pctChange = map[int]bool{}
 		for i := 0; i < cfg.PCT; i++ {
-			s.pctChange[tape.Choose(2000)] = true
+			s.pctChange.Set(uint64(tape.Choose(2000)), true)
 		}
 	}
 	act = s
 	t0 := s.newTask("root", nil)
 	s.cur = t0
-	raceDisable()
+	// the go statement keeps its happens-before edge (as in the real
+	// program); only the hand-offs are hidden from the race detector
 	go s.taskMain(t0, root, true)
+	raceDisable()
 	<-s.finished
 	raceEnable()
 	act = nil
 	// Leave process-global state as a fresh process would have it.
-	for _, d := range s.chans {
-		d.drain()
-	}
+	s.chans.Each(func(_ uint64, d drainer) { d.drain() })
 	r := s.res
+	r.Probes = s.probes.ToMap()
+	r.Faults = s.faults.ToMap()
+	r.PairSites = map[uint64]struct{}{}
+	s.pairs.Each(func(k uint64, _ struct{}) { r.PairSites[k] = struct{}{} })
 	r.Steps = s.steps
 	r.Tasks = len(s.tasks)
 	r.Choices = s.choices
@@ -191,7 +186,7 @@ func Run(cfg Config, tape *Tape, root func()) *Result {
 	}
 	for _, t := range s.tasks {
 		if !t.done {
-			r.Blocked = append(r.Blocked, fmt.Sprintf("%s(t%d): %s", t.Name, t.ID, t.desc))
+			r.Blocked = Push(r.Blocked, fmt.Sprintf("%s(t%d): %s", t.Name, t.ID, t.desc))
 		}
 	}
 	return r
@@ -199,19 +194,20 @@ func Run(cfg Config, tape *Tape, root func()) *Result {
 
 //go:norace
 func (s *sched) newTask(name string, parent *Task) *Task {
-	t := &Task{ID: len(s.tasks), Name: name, wake: make(chan struct{}, 1), Local: map[string]interface{}{}, Parent: parent}
+	t := &Task{ID: len(s.tasks), Name: name, wake: make(chan struct{}, 1), Parent: parent}
 	if parent != nil {
 		t.Role = parent.Role
-		for k, v := range parent.Local {
+		for i := 0; i < parent.Local.Len(); i++ {
+			k, v := parent.Local.At(i)
 			if strings.HasPrefix(k, "inherit.") {
-				t.Local[k] = v
+				t.Local.Set(k, v)
 			}
 		}
 	}
 	if s.cfg.PCT > 0 {
 		t.prio = 1000 + s.tape.Choose(1000)
 	}
-	s.tasks = append(s.tasks, t)
+	s.tasks = Push(s.tasks, t)
 	return t
 }
 
@@ -224,7 +220,7 @@ func (s *sched) taskMain(t *Task, f func(), first bool) {
 	}
 	defer func() {
 		if r := recover(); r != nil {
-			s.res.Panics = append(s.res.Panics, PanicInfo{Task: t.Name, Value: fmt.Sprint(r), Stack: string(debug.Stack()), Step: s.steps})
+			s.res.Panics = Push(s.res.Panics, PanicInfo{Task: t.Name, Value: fmt.Sprint(r), Stack: string(debug.Stack()), Step: s.steps})
 			if s.cfg.Trace {
 				s.event(t, "PANIC at top of task: %v", r)
 			}
@@ -309,7 +305,7 @@ func (s *sched) pickNext(self *Task) *Task {
 			continue
 		}
 		if t.ready == nil || t.ready() {
-			en = append(en, t)
+			en = Push(en, t)
 		}
 	}
 	if len(en) == 0 {
@@ -318,7 +314,7 @@ func (s *sched) pickNext(self *Task) *Task {
 				continue
 			}
 			if t.ready == nil || t.ready() {
-				en = append(en, t)
+				en = Push(en, t)
 			}
 		}
 	}
@@ -333,7 +329,9 @@ func (s *sched) pickNext(self *Task) *Task {
 	if self != nil {
 		for i, t := range en {
 			if t == self {
-				copy(en[1:i+1], en[0:i])
+				for j := i; j > 0; j-- {
+					en[j] = en[j-1]
+				}
 				en[0] = self
 				break
 			}
@@ -342,7 +340,7 @@ func (s *sched) pickNext(self *Task) *Task {
 	var pick *Task
 	if s.cfg.PCT > 0 {
 		// highest priority runs; at change points the running task drops.
-		if s.pctChange[s.steps] && self != nil {
+		if s.pctChange.Has(uint64(s.steps)) && self != nil {
 			self.prio = s.tape.Choose(1000)
 		}
 		pick = en[0]
@@ -364,8 +362,8 @@ func (s *sched) pickNext(self *Task) *Task {
 	s.fp = (s.fp ^ uint64(len(en))) * 1099511628211
 	if self != nil && pick != self {
 		h := strhash(self.desc)*31 + strhash(pick.desc)
-		if len(s.res.PairSites) < 100000 {
-			s.res.PairSites[h] = struct{}{}
+		if s.pairs.Len() < 100000 {
+			s.pairs.Set(h, struct{}{})
 		}
 	}
 	return pick
@@ -409,9 +407,7 @@ func GoNamed(name string, f func()) *Task {
 	t := s.newTask(name, parent)
 	t.parked = true
 	t.desc = "start"
-	raceDisable()
 	go s.taskMain(t, f, false)
-	raceEnable()
 	// Spawning is a scheduling point: the child may run first.
 	s.yield(nil, false, "go")
 	return t
@@ -525,7 +521,7 @@ func Pct(p int) bool {
 //go:norace
 func Probe(name string) {
 	if s := act; s != nil {
-		s.res.Probes[name]++
+		s.probes.Set(name, s.probes.Get(name)+1)
 	}
 }
 
@@ -534,7 +530,7 @@ func Probe(name string) {
 //go:norace
 func Fault(kind string) {
 	if s := act; s != nil {
-		s.res.Faults[kind]++
+		s.faults.Set(kind, s.faults.Get(kind)+1)
 	}
 }
 
@@ -562,7 +558,7 @@ func (s *sched) event(t *Task, format string, args ...interface{}) {
 	line := fmt.Sprintf("%06d t%d[%s] ", s.steps, t.ID, t.Name) + fmt.Sprintf(format, args...)
 	s.res.TraceHash = (s.res.TraceHash ^ strhash(line)) * 1099511628211
 	if len(s.res.Trace) < s.cfg.MaxTrace {
-		s.res.Trace = append(s.res.Trace, line)
+		s.res.Trace = Push(s.res.Trace, line)
 	}
 }
 
